@@ -1,6 +1,6 @@
 -------------------------------- MODULE IoGen --------------------------------
 (* Generators for C13 and C09: all Read-length schedules of a given length   *)
-(* over a small alphabet, and all fault plans (index, once/forever, partial).*)
+(* over a small alphabet, and all fault plans (index, once/forever, accepted).*)
 (* Also an exhaustive design check of IoContract.ReadSchedule: whatever a     *)
 (* contract-abiding reader answers, the delivered bytes are a prefix of the   *)
 (* content and EOF implies completeness.                                      *)
@@ -18,6 +18,7 @@ GRead == /\ phase = "sched" /\ Len(sched) < SchedLen
 GNext == GRead
 GSpec == GInit /\ [][GNext]_gvars
 EmitSched == Len(sched) = SchedLen => PrintT(ToJson([kind |-> "sched", ks |-> sched]))
-Plans == { [k |-> k, forever |-> f, partial |-> p] : k \in 1..MaxK, f \in BOOLEAN, p \in BOOLEAN }
+(* the failing Write reports its error together with none, half or all of the bytes accepted *)
+Plans == { [k |-> k, forever |-> f, partial |-> (a = "half"), full |-> (a = "all")] : k \in 1..MaxK, f \in BOOLEAN, a \in {"none", "half", "all"} }
 ASSUME PrintT(ToJson([kind |-> "plans", plans |-> Plans]))
 =============================================================================
